@@ -1262,3 +1262,10 @@ fn mad(f: f32x8, m: f32x8, a: f32x8) -> f32x8 {
 fn lerp(from: f32x8, to: f32x8, t: f32x8) -> f32x8 {
     mad(to - from, t, from)
 }
+
+/// Verification hook: the source index `gather_ix` computes for one coordinate pair.
+#[cfg(tiny_skia_verif)]
+pub(crate) fn verif_gather_ix(pixmap: PixmapRef, x: f32, y: f32) -> u32 {
+    let ix: [u32; 8] = bytemuck::cast(gather_ix(pixmap, f32x8::splat(x), f32x8::splat(y)));
+    ix[3]
+}
